@@ -1,5 +1,6 @@
 import Op2Proofs.SliceNesting
 import Op2Proofs.SysLemmas
+import Op2Proofs.SysContent
 import Op2Model.Vol
 import Op2Model.Clm
 /-!
@@ -151,6 +152,16 @@ example : let objs : Sys := [Rd.mem { data := [10, 11, 12, 13, 14, 15], pos := 0
                                  (2, .op (.read 2)), (1, .op (.seek 0)), (0, .op (.read 4)), (0, .op (.read 3))]
     ((Sys.run objs h).2.map fun o => (o.pos, o.len)) = [(6, 6), (0, 4), (2, 2)] ∧
     (projOuts 0 (Sys.run objs h).1).length = 5 := by decide
+
+/-! ## confinement over histories: "exactly those n bytes … and nothing else", whatever happens afterwards -/
+
+/-- no request to an object — reads and seeks in or out of bounds, slices and copies taken from it, the slice-here form that
+    advances it — changes the bytes it exposes (memory reader, file reader, file slice, slice of a file slice) -/
+theorem C13_request_keeps_window (r : Rd) (o : OOp) : (r.ostep o).2.content = r.content := Rd.ostep_content r o
+
+/-- hence under every interleaved history every object still exposes exactly the bytes it was created over -/
+theorem C13_confined_under_every_history (h : List (Nat × OOp)) (objs : Sys) (j : Nat) (r : Rd) (hr : objs[j]? = some r) :
+    ∃ r', (Sys.run objs h).2[j]? = some r' ∧ r'.content = r.content := Sys.run_content h objs j r hr
 
 /-! ## archive member streams are such slices
 
